@@ -59,7 +59,7 @@ func NewCtx(prop, tier string) *Ctx {
 	}
 	c := &Ctx{Prop: prop, Tier: tier, Seed: seed, Workers: w, Scratch: dir, Start: time.Now()}
 	// replay files of earlier runs of this property are stale
-	old, _ := filepath.Glob(filepath.Join(VerifDir, "evidence", "replays", prop+"-*"))
+	old, _ := filepath.Glob(filepath.Join(evidenceDir(), "replays", prop+"-*"))
 	for _, f := range old {
 		os.Remove(f)
 	}
@@ -608,9 +608,9 @@ func (c *Ctx) Finish(o *Outcome) int {
 	}
 	ev.Assumptions = o.Assumptions
 	ev.Violations = len(o.Violations)
-	os.MkdirAll(filepath.Join(VerifDir, "evidence"), 0755)
+	os.MkdirAll(evidenceDir(), 0755)
 	data, _ := json.MarshalIndent(ev, "", " ")
-	os.WriteFile(filepath.Join(VerifDir, "evidence", c.Prop+".json"), data, 0644)
+	os.WriteFile(filepath.Join(evidenceDir(), c.Prop+".json"), data, 0644)
 
 	seenK := map[string]bool{}
 	for _, k := range o.Known {
@@ -646,7 +646,7 @@ func round2(f float64) float64 { return float64(int(f*100+0.5)) / 100 }
 // SaveReplay copies a replay file to /verif/evidence/replays and returns the
 // stable path.
 func (c *Ctx) SaveReplay(name string, content any) string {
-	dir := filepath.Join(VerifDir, "evidence", "replays")
+	dir := filepath.Join(evidenceDir(), "replays")
 	os.MkdirAll(dir, 0755)
 	safe := regexp.MustCompile(`[^A-Za-z0-9_.-]+`).ReplaceAllString(name, "_")
 	p := filepath.Join(dir, c.Prop+"-"+safe+".json")
@@ -691,3 +691,13 @@ func (c *Ctx) HandleRepoCex(o *Outcome, r *Result, keyOf func(symgo.Cex) string)
 }
 
 func jsonIndent(v any) ([]byte, error) { return json.MarshalIndent(v, "", " ") }
+
+// evidenceDir is /verif/evidence unless VERIF_EVIDENCE redirects it (used for
+// calibration runs in the background, whose files must not replace the
+// evidence of the registered commands).
+func evidenceDir() string {
+	if d := os.Getenv("VERIF_EVIDENCE"); d != "" {
+		return d
+	}
+	return filepath.Join(VerifDir, "evidence")
+}
